@@ -3,6 +3,8 @@
  */
 
 #include <ctype.h>
+#include <errno.h>
+#include <math.h>
 #include <stdlib.h>
 
 #include "convert.h"
@@ -30,7 +32,12 @@ extern int mpt_cfloat(float *val, const char *src, const float range[2])
 	if (!*src) {
 		return 0;
 	}
+	errno = 0;
 	tmp = strtof(src, &end);
+	/* finite numeral beyond the range of the type */
+	if (errno == ERANGE && (tmp == HUGE_VALF || tmp == -HUGE_VALF)) {
+		return MPT_ERROR(BadValue);
+	}
 	
 	if (end == src) {
 		/* accept space as empty string */
